@@ -717,7 +717,7 @@ int main(int argc, char** argv) {
             Plan p = make_plan(prop, root, idx, c10_enum);
             if (dump) { printf("%s", plan_to_text(p, nullptr).c_str()); continue; }
             if (canon_dump) { RunOut o; g_keep = true; run_translator(p, true, o); std::string fl; for (auto& n : o.out_names) { std::string abs = o.root + "/" + n, d, b; split_path(abs, &d, &b); if (d == o.outdir) fl += (fl.empty() ? "" : "|") + b; }
-                printf("CANON idx=%llu exit=%d outhash=%016llx root=%s outdir=%s outbase=%s args=%s files=%s\n", (unsigned long long)idx, o.exit_code, (unsigned long long)o.out_hash, o.root.c_str(), o.outdir.c_str(), o.outbase.c_str(), opts_sig(p).c_str(), fl.c_str()); continue; }
+                printf("CANON idx=%llu exit=%d outhash=%016llx root=%s outdir=%s outbase=%s args=%s dmode=%s files=%s\n", (unsigned long long)idx, o.exit_code, (unsigned long long)o.out_hash, o.root.c_str(), o.outdir.c_str(), o.outbase.c_str(), opts_sig(p).c_str(), opt_val(p, "-d").empty() ? "arrays" : opt_val(p, "-d").c_str(), fl.c_str()); continue; }
             do_run(idx, p);
         }
     }
